@@ -7,12 +7,12 @@ import gen_derive as G
 
 DG = os.path.join(V, 'harness', 'dg')
 
-def gen_workload(seed, nshapes, npairs, nhist, depth=2):
+def gen_workload(seed, nshapes, npairs, nhist, depth=2, codec_safe=False):
     rng = random.Random(seed)
     shapes, lines, meta, dist = [], [], {}, {}
     def hit(k): dist[k] = dist.get(k, 0) + 1
     for i in range(nshapes):
-        sh = G.gen_shape(rng, rng.choice([0, 1, 2, 2, depth]))
+        sh = G.gen_shape(rng, rng.choice([0, 1, 2, 2, depth]), codec_safe=codec_safe)
         ko = rng.randrange(2)
         sid = str(i)
         shapes.append((sid, ko, sh))
@@ -28,9 +28,10 @@ def gen_workload(seed, nshapes, npairs, nhist, depth=2):
             else: b = G.mutate_val(rng, sh, a, mode)
             x = G.perturb_equiv(rng, sh, a) if rng.random() < 0.8 else a
             sub = [rng.randrange(8) for _ in range(rng.randint(0, 6))]
+            c = G.mutate_val(rng, sh, b, 'any') if rng.random() < 0.8 else G.gen_val(rng, sh)
             cid = f"p{sid}_{j}"
             meta[cid] = (sid, a, b, x, sub)
-            lines.append(f"PAIR {cid} {sid} A {G.vtext(a)} B {G.vtext(b)} X {G.vtext(x)} SUB {' '.join(map(str, sub))}".rstrip())
+            lines.append(f"PAIR {cid} {sid} A {G.vtext(a)} B {G.vtext(b)} X {G.vtext(x)} C {G.vtext(c)} SUB {' '.join(map(str, sub))}".rstrip())
         for j in range(nhist):
             st = [G.gen_val(rng, sh)]
             for _ in range(rng.choice([3, 6, 12])):
@@ -55,7 +56,7 @@ def gen_setter_workload(seed, nshapes, ncases):
         shapes.append((sid, ko, sh)); lines.append(f"SHAPE {sid} {ko} {sh.text()}")
         hit('setters_' + mode)
         for name in plan.values(): hit('custom_name' if name.startswith('cust_') else 'default_name')
-        for f in (sh.fields[j] for j in plan): hit('setter_on_' + f.strat + (str(f.ko) if f.strat == 'N' else ''))
+        for j in plan: hit(('custom_named_setter_on_' if plan[j].startswith('cust_') else 'default_named_setter_on_') + sh.fields[j].strat)
         for j in range(ncases):
             x = G.gen_val(rng, sh); cur = list(x[1]); ops = []
             for _ in range(rng.choice([1, 3, 6, 10])):
@@ -71,7 +72,7 @@ def gen_setter_workload(seed, nshapes, ncases):
             lines.append(f"SET {cid} {sid} X {G.vtext(x)} OPS " + ' '.join(f"{fi} {G.vtext(v)}" for fi, v in ops))
     return shapes, lines, meta, dist
 
-def build_dg(res, shapes, features=('debug_diffs',), tag='dg', setters=False):
+def build_dg(res, shapes, features=('debug_diffs',), tag='dg', setters=False, target_dir=None):
     """write gen.rs for these shapes into a private copy of the harness crate and build it against /repo"""
     crate = os.path.join(WORK, tag)
     os.makedirs(os.path.join(crate, 'src'), exist_ok=True)
@@ -83,9 +84,9 @@ def build_dg(res, shapes, features=('debug_diffs',), tag='dg', setters=False):
     for f in ('main.rs', 'support.rs'):
         put(os.path.join(crate, 'src', f), open(os.path.join(DG, 'src', f)).read())
     put(os.path.join(crate, 'src', 'gen.rs'), G.rust_module(shapes, setters=setters))
-    toml = open(os.path.join(DG, 'Cargo.toml')).read().replace('features = ["debug_diffs"]', 'features = [%s]' % ', '.join(f'"{x}"' for x in features))
-    put(os.path.join(crate, 'Cargo.toml'), toml)
-    return cargo_build(res, crate, 'dg')
+    put(os.path.join(crate, 'Cargo.toml'), open(os.path.join(DG, 'Cargo.toml')).read())
+    FMAP = {'debug_diffs': 'dbg', 'nanoserde': 'ns', 'serde': 'sd', 'generated_setters': 'gs', 'rustc_hash': 'rh', 'debug_asserts': 'da'}
+    return cargo_build(res, crate, 'dg', features=[FMAP[x] for x in features], target_dir=target_dir)
 
 def canon_impl_lines(lines, shapes_by_id, meta):
     """implementation output -> canonical observation lines (diff Debug text parsed and canonicalised by shape)"""
@@ -109,7 +110,7 @@ def canon_impl_lines(lines, shapes_by_id, meta):
 
 import derive_oracles as O
 TAGS = {'C01': ('D', 'A'), 'C02': ('D', 'X', 'H'), 'C03': ('D', 'S'), 'C04': ('D', 'DR'), 'C05': ('D', 'DR', 'XR', 'ARR', 'A', 'X'),
-        'C06': ('A', 'AR', 'AM', 'AS'), 'C13': ('D', 'A', 'X')}
+        'C06': ('A', 'AR', 'AM', 'AS', 'A2', 'AR2', 'AM2', 'AS2'), 'C13': ('D', 'A', 'X')}
 
 def workload_params(prop, tier):
     # (nshapes, npairs, nhist); C13 uses a workload of shapes that all contain a recursive map
@@ -140,8 +141,9 @@ def run_workload(res, prop, seed, tier, tag):
                 a = G.gen_val(rng, sh); mode = rng.choice(['any', 'any', 'any', 'skiponly', 'same', 'indep'])
                 b = a if mode == 'same' else G.gen_val(rng, sh) if mode == 'indep' else G.mutate_val(rng, sh, a, mode)
                 x = G.perturb_equiv(rng, sh, a); sub = [rng.randrange(8) for _ in range(rng.randint(0, 6))]
+                c = G.mutate_val(rng, sh, b, 'any')
                 cid = f"p{sid}_{j}"; meta[cid] = (sid, a, b, x, sub)
-                lines.append(f"PAIR {cid} {sid} A {G.vtext(a)} B {G.vtext(b)} X {G.vtext(x)} SUB {' '.join(map(str, sub))}".rstrip())
+                lines.append(f"PAIR {cid} {sid} A {G.vtext(a)} B {G.vtext(b)} X {G.vtext(x)} C {G.vtext(c)} SUB {' '.join(map(str, sub))}".rstrip())
         shapes += extra
     key = sha('|'.join([repo_hash(), sha(open(os.path.join(DG, 'src', 'support.rs')).read() + open(os.path.join(DG, 'src', 'main.rs')).read()
                                          + open(os.path.join(V, 'tools', 'gen_derive.py')).read()), str(seed), tier, family]))
